@@ -84,7 +84,8 @@ DoSet(P, s, c, k, i) ==
     ELSE LET s1 == IF Present(s, k)                       (* delete ... *)
                    THEN Signal([s EXCEPT !.kv = KvDel(s.kv, k), !.ttl[k] = 0], k) ELSE s
          IN IF v = Empty THEN s1                           (* ... and nothing to create *)
-            ELSE Signal([s1 EXCEPT !.kv = KvPut(s1.kv, k, v)], k)
+            ELSE LET s2 == Read(s1, c, k)                  (* the view checks that the key is free *)
+                 IN Signal([s2 EXCEPT !.kv = KvPut(s2.kv, k, v)], k)
 
 (* store[k][f] = x   (update one member through the view obtained by []) *)
 DoNestedSet(P, s, c, k, f, x) ==
